@@ -92,6 +92,45 @@ if mode == "loader":
                 res[n] = dict(res.get(n, {}), error=type(e).__name__, error_mod=type(e).__module__, msg=str(e)[:200])
         return res
     out["servers"] = asyncio.run(main())
+elif mode == "loader_rewrite":
+    # one process, one path: load + launch, rewrite the file at once, load + launch again (then a broken rewrite)
+    from chuk_mcp.config import load_config
+    from chuk_mcp.transports.stdio.stdio_client import stdio_client
+    from chuk_mcp.protocol.messages.initialize.send_messages import send_initialize
+    import shutil
+    async def launch(n):
+        params, tmo = await load_config(cfg_path, n)
+        async with stdio_client(params) as (r, w):
+            await send_initialize(r, w, timeout=10.0)
+            await asyncio.sleep(0.1)
+    async def main():
+        res = {}
+        for phase, src in (("v1", None), ("v2", cfg_path + ".v2")):
+            if src:
+                shutil.copyfile(src, cfg_path)
+            for n in names:
+                try:
+                    await launch(n)
+                    res[phase + ":" + n] = "ok"
+                except BaseException as e:
+                    res[phase + ":" + n] = type(e).__name__ + ": " + str(e)[:120]
+        with open(cfg_path, "w") as f:
+            f.write("{ this is not json")
+        try:
+            await load_config(cfg_path, names[0])
+            res["broken"] = "no exception"
+        except BaseException as e:
+            import json as _j
+            res["broken"] = "JSONDecodeError" if isinstance(e, _j.JSONDecodeError) else type(e).__name__
+        with open(cfg_path, "w") as f:
+            f.write('{"mcpServers": {}}')
+        try:
+            await load_config(cfg_path, names[0])
+            res["removed"] = "no exception"
+        except BaseException as e:
+            res["removed"] = type(e).__name__
+        return res
+    out["phases"] = asyncio.run(main())
 elif mode == "errors":
     from chuk_mcp.config import load_config
     async def main():
@@ -198,6 +237,56 @@ def one_case(cfg: Dict[str, Any], mode: str, names: List[str]) -> Dict[str, Any]
         # make sure nothing survives
         subprocess.run(["pkill", "-f", tmp], capture_output=True)
         shutil.rmtree(tmp, ignore_errors=True)
+
+
+def rewrite_case(cfg: Dict[str, Any]) -> Dict[str, Any]:
+    """Same path, two generations of content, one process."""
+    tmp = tempfile.mkdtemp(prefix="vf_c20r_")
+    try:
+        d1, d2 = os.path.join(tmp, "g1"), os.path.join(tmp, "g2")
+        os.makedirs(d1)
+        os.makedirs(d2)
+        m1 = materialise(d1, cfg)
+        cfg2 = json.loads(json.dumps(cfg))
+        for name, spec in cfg2["servers"].items():
+            spec["args"] = ["--generation", "two"] + (spec["args"] if isinstance(spec["args"], list) else [])
+            spec["env"] = {"GENERATION": "2"}
+        m2 = materialise(d2, cfg2)
+        shutil.copyfile(m2["path"], m1["path"] + ".v2")
+        names = list(cfg["servers"])
+        o = run_entry("loader_rewrite", m1["path"], names, tmp)
+        o["launches_v1"] = {n: launches(e["witness"]) for n, e in m1["expect"].items()}
+        o["launches_v2"] = {n: launches(e["witness"]) for n, e in m2["expect"].items()}
+        o["expect_v2"] = m2["expect"]
+        return o
+    finally:
+        subprocess.run(["pkill", "-f", tmp], capture_output=True)
+        shutil.rmtree(tmp, ignore_errors=True)
+
+
+def judge_rewrite(ctx, case, o):
+    if o.get("watchdog"):
+        ctx.violation("entry_point_hung", "loader_rewrite did not finish", case)
+        return
+    ctx.count("entry_point_runs")
+    phases = (o.get("result") or {}).get("phases", {})
+    for name, exp in o["expect_v2"].items():
+        l1, l2 = o["launches_v1"].get(name, []), o["launches_v2"].get(name, [])
+        ctx.count("witness_launches", len(l1) + len(l2))
+        if len(l1) != 1 or len(l2) != 1:
+            ctx.violation("stale_configuration_used", f"after the file was rewritten, server {name!r}: generation-1 command "
+                          f"launched {len(l1)} time(s), generation-2 command {len(l2)} time(s) (expected 1 and 1); "
+                          f"phases: {phases}", case)
+            continue
+        got = [bytes.fromhex(a) for a in l2[0]["argv"]]
+        if got != [os.fsencode(a) for a in exp["args"]]:
+            ctx.violation("argv_differs", f"rewritten config: {name!r} argv {got!r} != {exp['args']!r}", case)
+    if phases.get("broken") != "JSONDecodeError":
+        ctx.violation("config_error_type", f"file rewritten with invalid JSON: load_config gave {phases.get('broken')!r}", case)
+    if phases.get("removed") != "ValueError":
+        ctx.violation("config_error_type", f"server removed from the file: load_config gave {phases.get('removed')!r}", case)
+    ctx.record(case, shape=[phases.get("broken"), phases.get("removed")], cls="loader_rewrite",
+               sample={"mode": "loader_rewrite", "phases": phases})
 
 
 def judge(ctx, case: Dict[str, Any], o: Dict[str, Any]) -> None:
@@ -329,6 +418,12 @@ def run(ctx):
                 judge(ctx, futs[f], f.result())
             except Exception as e:  # noqa
                 ctx.inconclusive_because(f"harness error judging {futs[f]['mode']}: {e!r}")
+        rfuts = {ex.submit(rewrite_case, cfg): {"cfg": cfg, "mode": "loader_rewrite"} for cfg in cfgs[:6 if ctx.tier == "quick" else 40]}
+        for f in cf.as_completed(rfuts):
+            try:
+                judge_rewrite(ctx, rfuts[f], f.result())
+            except Exception as e:  # noqa
+                ctx.inconclusive_because(f"harness error judging loader_rewrite: {e!r}")
         efuts = {ex.submit(run_error_case, ec): ec for ec in error_cases(ctx)}
         for f in cf.as_completed(efuts):
             ec = efuts[f]
@@ -352,6 +447,8 @@ def replay(ctx, case):
         ctx.record(case, shape=res.get("error"))
         if res.get("error") != case["error_case"]["expect"] and case["error_case"]["expect"] not in (res.get("mro") or []):
             ctx.violation("config_error_type", f"raised {res.get('error')!r}", case)
+    elif case.get("mode") == "loader_rewrite":
+        judge_rewrite(ctx, case, rewrite_case(case["cfg"]))
     else:
         judge(ctx, case, one_case(case["cfg"], case["mode"], case["names"]))
     ctx.record({"x": 1}, shape=1)
